@@ -68,6 +68,7 @@ def run(ctx):
         s = LambdaParamScheduler(p, **kw)
         ncalls = rng.randrange(1, ctx.budget(6, 12))
         calls, steps, impl = [], [], []
+        exact = [Fraction(v) for v in vals]
         ok = True
         for _c in range(ncalls):
             p._steps += rng.choice([0, 1, 1, 2, 5])
@@ -84,6 +85,18 @@ def run(ctx):
             if any(abs(float(x)) > 2**40 or (x != 0 and abs(float(x)) < 2**-300) for x in cur):
                 ok = False
                 break
+            # ... and the exact products must fit a double's 53-bit significand (longer histories overflow it; the
+            # statement is about the real-number recurrence, rounding is not the scheduler's doing): stop the history
+            # at the last exactly representable call
+            w_ = arg if arg is not None else p._steps
+            nxt = list(exact)
+            for j, ab in enumerate(lams):
+                if ab is not None:
+                    v = nxt[j] * (ab[0] + ab[1] * w_)
+                    nxt[j] = Fraction(int(v)) if j < 2 else v
+            if any(Fraction(float(e)) != e for e in nxt):
+                break
+            exact = nxt
             if not isinstance(cur[0], int) or not isinstance(cur[1], int):
                 ctx.fail('interval parameter is not an int after a scheduler step',
                          {'vals': vals, 'calls': calls}, 'interval-not-int')
